@@ -1,23 +1,79 @@
-"""Lexical layer: digit-group records for regex-described inputs and decimal lengths (DESIGN 2.7)."""
+"""Lexical layer: decimal lengths of token strings, int()/float() of described text (DESIGN 2.7)."""
 import z3
 
 from . import sym as S
 from .sym import Sym, SInt, SBool, SReal, SStr, SBytes, Unsupported
+from .text import FmtStr, Lit, Dec, Emb
+
+MAX_DIGITS = 40
+
+
+def declen(interp, t, minwidth=0):
+    """Length of the decimal rendering of integer term t (with '-' for negatives, left-padded to
+    minwidth).  A fresh Int constrained exactly for |t| < 10**MAX_DIGITS and from below beyond."""
+    ctx = interp.ctx
+    d = ctx.int('ndigits', declare=False).t
+    a = z3.If(t >= 0, t, -t)
+    cs = [d >= 1]
+    for k in range(1, MAX_DIGITS + 1):
+        cs.append((a < 10 ** k) == (d <= k))
+    ctx.assume(z3.And(*cs))
+    raw = d + z3.If(t < 0, 1, 0)
+    if minwidth:
+        raw = z3.If(raw < minwidth, z3.IntVal(minwidth), raw)
+    return raw
 
 
 def fmt_len(interp, v):
-    raise Unsupported("len() of a token string")
+    total = z3.IntVal(0)
+    for tok in v.tokens:
+        if isinstance(tok, Lit):
+            total = total + len(tok.text)
+        elif isinstance(tok, Dec):
+            total = total + declen(interp, tok.term, tok.minwidth)
+        elif isinstance(tok, Emb):
+            total = total + z3.Length(tok.s.t)
+        else:
+            raise Unsupported("len() of token %r" % (tok,))
+    return SInt(z3.simplify(total))
 
 
 def lex_int(interp, v):
+    if isinstance(v, FmtStr):
+        toks = v.tokens
+        if len(toks) == 1 and isinstance(toks[0], Dec):
+            # int(str(n)) == n  (assumed inverse pair of CPython, DESIGN 2.8); padding zeros are accepted
+            return SInt(toks[0].term)
+        if len(toks) == 2 and isinstance(toks[0], Lit) and toks[0].text in ('-', '+') and \
+                isinstance(toks[1], Dec):
+            # "-" followed by the rendering of a non-negative number
+            if interp.ctx.branch(toks[1].term >= 0):
+                return SInt(-toks[1].term if toks[0].text == '-' else toks[1].term)
+            raise ValueError("invalid literal for int() with base 10")
+        raise Unsupported("int() of token string %r" % (v,))
+    from .regexmodel import LexGroup
+    if isinstance(v, LexGroup):
+        return v.to_int(interp)
+    if isinstance(v, SStr):
+        raise Unsupported("int() of an unconstrained symbolic string")
     raise Unsupported("int() of %r" % (v,))
 
 
 def lex_float(interp, v):
+    from .regexmodel import LexGroup
+    if isinstance(v, LexGroup):
+        return v.to_float(interp)
+    if isinstance(v, SInt):
+        # float(n) for an integer used only in comparisons and %i formatting: exact below 2**53.
+        interp.ctx.check('float.exact_int', S.And(v > -2 ** 53, v < 2 ** 53))
+        return v
     raise Unsupported("float() of %r" % (v,))
 
 
 def lex_round(interp, v, nd):
+    from .regexmodel import FracFloat
+    if isinstance(v, FracFloat):
+        return v.round(interp, nd)
     raise Unsupported("round() of %r" % (v,))
 
 
